@@ -209,8 +209,11 @@ func StabilityProgs() []Prog {
 			node := rapid.Custom(func(t *rapid.T) famNode {
 				n := famNode{Key: rapid.IntRange(0, 5).Draw(t, "key")}
 				if rapid.IntRange(0, 3).Draw(t, "leaf") == 0 {
-					for _, k := range kids.Draw(t, "kids") {
-						n.Kids = append(n.Kids, k)
+					m := kids.Draw(t, "kids")
+					for key := 0; key <= 5; key++ { // in key order: Go's map iteration order must not leak into the value
+						if k, ok := m[key]; ok {
+							n.Kids = append(n.Kids, k)
+						}
 					}
 				}
 				return n
